@@ -26,7 +26,7 @@ from harness.c08 import api_variant
 
 LEVEL = "proof"
 logging.disable(logging.CRITICAL)
-REQ = ["MV.Spec.RefEval", "MV.Model.DataPlane"]
+REQ = ["MV.Spec.RefEval", "MV.Spec.RefEvalWf", "MV.Model.DataPlane"]
 
 EXTRA = """
 Definition obs_ok (e : env) (obs : list (nat * column)) : bool :=
@@ -34,7 +34,7 @@ Definition obs_ok (e : env) (obs : list (nat * column)) : bool :=
 (* n rows, source, definitions, observed (requested feature, returned column) *)
 Definition chk_values (c : (nat * env * list fdef) * list (nat * column)) : bool :=
   match c with ((n, src, defs), obs) =>
-    let e := ref_eval n src defs in solution n src defs e && obs_ok e obs end.
+    let e := ref_eval n src defs in wf_request src defs && solution n src defs e && obs_ok e obs end.
 (* replay of the observed run through the data-plane model: ok? + returned columns *)
 Definition chk_exec (c : (nat * env * list fdef * list action) * (bool * list (nat * nat * column))) : bool :=
   match c with ((n, src, defs, acts), (ok, obs)) =>
@@ -110,12 +110,20 @@ def cq_src(ids: Dict[Tuple[str, Optional[str]], int], root: Dict[str, Any]) -> s
 
 def cq_defs(ids: Dict[Tuple[str, Optional[str]], int], spec: Dict[str, Any], only: Optional[List[Tuple[str, Optional[str]]]] = None) -> str:
     defs = {n: d for g in spec["groups"] if g["kind"] == "derived" for n, d in g["features"].items()}
+    # dependency order (inputs before users), so that wf_request holds and C02ref_ref_eval_solution_topo applies
+    todo = [(name, opt) for (name, opt) in ids if name in defs and (only is None or (name, opt) in only)]
+    placed: List[Tuple[str, Optional[str]]] = []
+    while todo:
+        ready = [k for k in todo if all((x not in defs) or ((x, k[1]) in placed) or ((x, k[1]) not in todo) for x in defs[k[0]]["inputs"])]
+        if not ready:
+            ready = todo[:1]
+        for k in ready:
+            placed.append(k)
+            todo.remove(k)
     out = []
-    for (name, opt), i in ids.items():
-        if name not in defs or (only is not None and (name, opt) not in only):
-            continue
+    for (name, opt) in placed:
         d = defs[name]
-        out.append(f"{{| fname := {cq_nat(i)}; inputs := {cq_list(cq_nat(ids[(x, opt)]) for x in d['inputs'])}; "
+        out.append(f"{{| fname := {cq_nat(ids[(name, opt)])}; inputs := {cq_list(cq_nat(ids[(x, opt)]) for x in d['inputs'])}; "
                    f"c0 := {cq_z(d['c0'])}; coefs := {cq_list(cq_z(c) for c in d['coefs'])} |}}")
     return cq_list(out)
 
@@ -210,6 +218,10 @@ def run(rep: vlib.Reporter, tier: str, seed: int) -> None:
     install()
     pr = vlib.build_props("C02")
     rep.proof(pr)
+    pr2 = vlib.build_props("C02ref")     # ref_eval is a solution for every well-formed request; solutions are unique
+    rep.proof(pr2)
+    pr.ok = pr.ok and pr2.ok
+    pr.failed_files += pr2.failed_files
     rep.coverage["trusted_base"] += [
         "Spec/RefEval.v is the reference evaluation (the oracle of record, evaluated by vm_compute and checked to be a solution of "
         "the defining equations per case); Model/DataPlane.v is a hand-written model of run_calculation / TransformFrameworkStep on "
